@@ -131,6 +131,25 @@ func (t *Tun) SentAll() bool {
 	return (t.Client.Ready && t.next >= len(t.Plan.Pkts)) || t.closed || t.Err != ""
 }
 
+// HostConns are the backend connections that can belong to this tunnel: those accepted by
+// its hosts after the tunnel started sending (host names may be shared between tunnels of
+// one run when they derive from a user name).
+func (t *Tun) HostConns() []*env.HostConn {
+	var out []*env.HostConn
+	var first uint64
+	if len(t.Client.Sent) > 0 {
+		first = t.Client.Sent[0].Seq
+	}
+	for _, h := range t.Hosts {
+		for _, hc := range h.Conns {
+			if hc.AccSeq >= first {
+				out = append(out, hc)
+			}
+		}
+	}
+	return out
+}
+
 // sendSeg sends the next piece of the re-segmented packet stream and records which
 // packets have now been sent completely.
 func (t *Tun) sendSeg(c *Ctx) {
@@ -633,6 +652,9 @@ func CheckTunnel(c *Ctx, t *Tun, mc ModelCfg, prop string) *TunVerdict {
 		if !belongs(p, d.To) {
 			continue
 		}
+		if len(cl.Sent) > 0 && d.Seq < cl.Sent[0].Seq {
+			continue // made before this tunnel sent anything: another tunnel's dial to the same name
+		}
 		n++
 		if v.Channel < 0 {
 			failf(c, "C01", "dial-unauthorised", "%s: gateway dialed %s but the tunnel never completed the authorisation sequence (sent=%s)", name, d.To, planString(p, sentN))
@@ -653,10 +675,8 @@ func CheckTunnel(c *Ctx, t *Tun, mc ModelCfg, prop string) *TunVerdict {
 	}
 	// host side: bytes only from DATA packets sent while the channel was open, in order
 	var got []byte
-	for _, h := range t.Hosts {
-		for _, hc := range h.Conns {
-			got = append(got, hc.Recv...)
-		}
+	for _, hc := range t.HostConns() {
+		got = append(got, hc.Recv...)
 	}
 	if !bytes.HasPrefix(v.ExpectHost, got) {
 		sig := "host-stream-mismatch"
